@@ -70,6 +70,8 @@ def gen_market(rnd, ndays=22, warm=3, n_stocks=None, with_future=None, opts=None
                 divs.append((bi, bi + 1, bi + 1 + rnd.randrange(0, 3), round(rnd.uniform(0.5, 5), 2)))   # book, ex, payable idx, cash per 10
             if len(divs) == 2 and not (divs[0][2] < divs[1][0] or divs[1][2] < divs[0][0]) and not opts.get("overlap_div"):
                 divs = divs[:1]     # overlapping record->payable windows are a separate stream (finding F21)
+        if split_i is not None and divs and rnd.random() < opts.get("p_same_ex", 0.35) and warm + 2 <= divs[0][1] < len(cal) - 2:
+            split_i = divs[0][1]        # bonus shares and cash dividend with one ex-date (the usual combined distribution)
         fac = [(0, 1.0)]
         f = 1.0
         width = 0.2 if kind == "KSH" else 0.1
@@ -99,6 +101,9 @@ def gen_market(rnd, ndays=22, warm=3, n_stocks=None, with_future=None, opts=None
                 c = lu
             elif r < p_limit:
                 c = ld
+            elif r < p_limit + opts.get("p_near_limit", 0.1):
+                c = rnd.choice([round(ld + 0.01 * rnd.choice([1, 2, 3]), 2), round(lu - 0.01 * rnd.choice([1, 2, 3]), 2)])   # inside the band, a tick or two from a limit
+                c = min(lu, max(ld, c))
             else:
                 c = min(lu, max(ld, round(ref * (1 + rnd.uniform(-0.07, 0.07)), 2)))
             o = min(lu, max(ld, round(ref * (1 + rnd.uniform(-0.03, 0.03)), 2)))
